@@ -54,11 +54,10 @@ theorem traits_sound {i : SInfo} {s : Shape} (h : i.γ s) :
     | dyn => simp [SInfo.boundedDim, hsh, ShapeK.len?] at hk
   · intro n hn
     cases hsz : i.size <;> simp [SInfo.fixedSize, hsz] at hn
-    simp only [hsz, SizeK.γ] at hz; omega
+    all_goals (simp only [hsz, SizeK.γ] at hz; omega)
   · intro n hn
     cases hsz : i.size <;> simp [SInfo.boundedSize, hsz] at hn
-    · simp only [hsz, SizeK.γ] at hz; omega
-    · simp only [hsz, SizeK.γ] at hz; omega
+    all_goals (simp only [hsz, SizeK.γ] at hz; omega)
 
 example : (⟨.clipped [2, 3], .atMost 6⟩ : SInfo).γ [1, 3] := by decide
 example : (⟨.clipped [2, 3], .atMost 6⟩ : SInfo).boundedSize = some 6 := rfl
@@ -119,6 +118,10 @@ theorem flatten_static_sound {i o : SInfo} {s : Shape} (h : i.γ s) (ho : transf
   | any =>
     simp only [hsz, transferReshape, Option.some.injEq] at ho; subst ho
     exact indexingInfo_sound (by simp [ArrK.toShapeK, ShapeK.γ, refFlatten]) trivial
+  | knownB n b =>
+    simp only [hsz, transferReshape, Option.some.injEq] at ho; subst ho
+    simp only [hsz, SizeK.γ] at hz
+    exact indexingInfo_sound (by simp [ArrK.toShapeK, ShapeK.γ, refFlatten, hz.1]) (by rw [hp]; simp only [hsz, SizeK.γ]; exact hz)
 
 example : transferFlatten ⟨.fixedDim 2, .atMost 6⟩ = some ⟨.clipped [6], .atMost 6⟩ := by decide
 
@@ -609,7 +612,7 @@ theorem concat_static_sound {i j o : SInfo} {a b t : Shape} {k : AxisK} {axis : 
   have hsum : (sumSizeK i.size j.size).γ (prod t) := by
     have h1 := hi.2; have h2 := hj.2
     rw [hprod]
-    cases hx : i.size <;> cases hy : j.size <;> simp only [hx, hy, SizeK.γ, sumSizeK] at h1 h2 ⊢ <;> omega
+    cases hx : i.size <;> cases hy : j.size <;> simp only [hx, hy, SizeK.γ, sumSizeK, SizeK.fixed?, SizeK.bound?] at h1 h2 ⊢ <;> omega
   have key : ∀ d, concatShapeK k i.seen j.seen = some d → (concatInfo i.size j.size d).γ t := by
     intro d hd
     have hdγ := concatShapeK_sound (seen_sound hi) (seen_sound hj) hk hr hd
@@ -772,12 +775,13 @@ theorem bsizeK_sound {B : ShapeK} {zi zj zk : SizeK} {a b c t1 t : Shape} (hB : 
 theorem whereInfo_sound {B : ShapeK} {o : SizeK} {t : Shape} (hB : B.γ t) (ho : o.γ (prod t))
     (hnk : B.isConst = false → ∀ n, o ≠ .known n) : (whereInfo B o).γ t := by
   refine ⟨hB, ?_⟩
-  have gen : B.isConst = false → (match o with | .known n => SizeK.known (3 * n) | .atMost n => .atMost (3 * n) | .any => .any).γ (prod t) := by
+  have gen : B.isConst = false → (match o with | .known n => SizeK.known (3 * n) | .atMost n => .atMost (3 * n) | _ => .any).γ (prod t) := by
     intro hc
     cases o with
     | known n => exact absurd rfl (hnk hc n)
     | atMost n => simp only [SizeK.γ] at ho ⊢; omega
     | any => trivial
+    | knownB n b => trivial
   cases B with
   | const l => simp only [ShapeK.γ] at hB; subst hB; simp [whereInfo, SizeK.γ]
   | clipped m => exact gen rfl
@@ -820,28 +824,47 @@ theorem where_counterexample :
     i.γ [1, 1] ∧ k.γ [2, 3] ∧ refBroadcast3 [1, 1] [1, 1] [2, 3] = some [2, 3] ∧ whereTripled i i k = true ∧
     transferWhere i i k = some ⟨.fixedDim 2, .known 18⟩ ∧ ¬ (⟨.fixedDim 2, .known 18⟩ : SInfo).γ [2, 3] := by decide
 
-/-! ### matmul (operands of rank >= 2, not both of constant shape) -/
+/-! ### matmul (operands of rank >= 2) -/
+
+theorem matmulSize_sound {i j : SInfo} {a b t : Shape} (hi : i.γ a) (hj : j.γ b) (hprod : prod t ≤ prod a * prod b) :
+    (matmulSize i j).γ (prod t) := by
+  unfold matmulSize
+  split
+  · rename_i x y hx hy
+    have h1 := bsz_sound hi hx
+    have h2 := bsz_sound hj hy
+    simp only [SizeK.γ]
+    exact Nat.le_trans hprod (Nat.mul_le_mul h1 h2)
+  · trivial
 
 theorem matmul_static_sound {i j o : SInfo} {a b t : Shape} (hi : i.γ a) (hj : j.γ b) (hpa : Pos a) (hpb : Pos b)
     (href : refMatmul a b = some t) (ho : transferMatmul i j = some o) : o.γ t := by
   obtain ⟨hlen, _, _, hprod⟩ := refMatmul_spec hpa hpb href
+  have hz := matmulSize_sound hi hj hprod
   unfold transferMatmul at ho
   split at ho
-  · simp at ho
-  · simp only [Option.map_eq_some_iff] at ho
-    obtain ⟨d, hd, rfl⟩ := ho
-    refine ⟨matmulShapeK_sound (seen_sound hi).1 (seen_sound hj).1 hlen hd, ?_⟩
+  · rename_i va vb h1 h2
+    have ha := (seen_sound hi).1; rw [h1] at ha; simp only [ShapeK.γ] at ha; subst ha
+    have hb := (seen_sound hj).1; rw [h2] at hb; simp only [ShapeK.γ] at hb; subst hb
+    simp only [Option.map_eq_some_iff] at ho
+    obtain ⟨t', ht', rfl⟩ := ho
+    rw [href] at ht'; simp only [Option.some.injEq] at ht'; subst ht'
+    refine ⟨rfl, ?_⟩
     simp only
     split
-    · rename_i x y hx hy
-      have h1 := bsz_sound hi hx
-      have h2 := bsz_sound hj hy
-      simp only [SizeK.γ]
-      exact Nat.le_trans hprod (Nat.mul_le_mul h1 h2)
-    · trivial
+    · rename_i bnd hb
+      rw [hb] at hz; simp only [SizeK.γ] at hz ⊢
+      exact ⟨trivial, hz⟩
+    · simp [SizeK.γ]
+  · simp only [Option.map_eq_some_iff] at ho
+    obtain ⟨d, hd, rfl⟩ := ho
+    exact ⟨matmulShapeK_sound (seen_sound hi).1 (seen_sound hj).1 hlen hd, hz⟩
 
 example : refMatmul [4, 2, 3] [3, 5] = some [4, 2, 5] := by decide
 example : transferMatmul ⟨.const [2, 3], .known 6⟩ ⟨.clipped [3, 2], .atMost 6⟩ = some ⟨.fixedDim 2, .atMost 36⟩ := by decide
+/-- two constant shapes: fixed_size 4 next to bounded_size 36 -/
+example : transferMatmul ⟨.const [2, 3], .known 6⟩ ⟨.const [3, 2], .known 6⟩ = some ⟨.const [2, 2], .knownB 4 36⟩ ∧
+    (⟨.const [2, 2], .knownB 4 36⟩ : SInfo).fixedSize = some 4 ∧ (⟨.const [2, 2], .knownB 4 36⟩ : SInfo).boundedSize = some 36 := by decide
 
 /-! ## composition: every view type reachable by composing the modelled operations -/
 
